@@ -1187,17 +1187,33 @@ def c11(ctx):
             for via in ("direct", "json", "ubjson", "cborl"):
                 cases.append(case("C11", "gort", "go", sub=dict(T=T, V=V, via=via, keycache=cap), origin="recurring member names, key cache %d" % cap))
                 cases.append(case("C11", "gort", "go", sub=dict(T=dict(k="iface"), V=VI, via=via, keycache=cap), origin="recurring member names below interface{}, key cache %d" % cap))
-    # self-referential types (hand-written registry)
-    for tid, val in (("RecNode", dict(k="struct", f=[dict(k="int", ty="int", v=streams.canon(1)), dict(k="ptr", nil=True)])),
-                     ("RecTree", dict(k="struct", f=[dict(k="str", ty="string", v=list(b"r")), dict(k="slice", nil=True), dict(k="map", nil=True)]))):
-        for via in ("direct", "json"):
-            cases.append(case("C11", "gort", "go", sub=dict(T=dict(k="named", id=tid), V=val, via=via), origin="recursive type"))
+    # self-referential types (hand-written registry): lists, trees with slice / map-of-pointer children
+    def I(x):
+        return dict(k="int", ty="int", v=streams.canon(x))
+
+    def node(vals):
+        return dict(k="struct", f=[I(vals[0]), dict(k="ptr", e=[node(vals[1:])]) if len(vals) > 1 else dict(k="ptr", nil=True)])
+
+    def tree(name, kids=None, idx=None):
+        return dict(k="struct", f=[dict(k="str", ty="string", v=list(name)),
+                                   dict(k="slice", e=kids) if kids is not None else dict(k="slice", nil=True),
+                                   dict(k="map", m=[dict(key=list(k), val=dict(k="ptr", e=[v]) if v is not None else dict(k="ptr", nil=True)) for k, v in idx]) if idx is not None else dict(k="map", nil=True)])
+    recs = [("RecNode", node([1])), ("RecNode", node([1, 2, 3])), ("RecNode", node(list(range(1, 9)))),
+            ("RecTree", tree(b"r")), ("RecTree", tree(b"r", [tree(b"a"), tree(b"b", [tree(b"c")], [(b"x", tree(b"y")), (b"n", None)])], [(b"k", tree(b"v", [], []))]))]
+    for tid, val in recs:
+        RT = dict(k="named", id=tid)
+        for via in ("direct", "json", "ubjson", "cborl"):
+            cases.append(case("C11", "gort", "go", sub=dict(T=RT, V=val, via=via), origin="recursive type"))
+            cases.append(case("C11", "gort", "go", sub=dict(T=dict(k="slice", e=[RT]), V=dict(k="slice", e=[val, val]), via=via), origin="recursive type in a slice"))
+            cases.append(case("C11", "gort", "go", sub=dict(T=dict(k="struct", f=[dict(name="P", tname="", opts=[], t=dict(k="ptr", e=[RT])), dict(name="Q", tname="", opts=[], t=dict(k="int"))]),
+                                                               V=dict(k="struct", f=[dict(k="ptr", e=[val]), I(1)]), via=via), origin="recursive type behind a field"))
     number(cases)
     tf, st = core.run_harness(ctx, cases)
     failed, nv = core.tlc_validate(ctx, "TraceCodec", tf)
     return run.decide(
         ctx, "TraceCodec", cases, tf, failed, nv, level_note="",
-        rule="the TLC-enumerated (type, value) programs of GenGoType (see C12) plus self-referential named types, each folded and "
+        rule="the TLC-enumerated (type, value) programs of GenGoType (see C12) plus self-referential named types (lists of 1-8 nodes, trees "
+             "with slice and map-of-pointer children; alone, in a slice, behind a pointer field), each folded and "
              "unfolded into a fresh variable of the same type directly and through the JSON, UBJSON and CBOR encoder+parser, with the "
              "unfolder's key cache off and (every 4th program, and slices of maps with recurring member names) on with capacities 0-8; "
              "TraceCodec!GoRtVerdict compares the reflection-projected result with the original through SFGoType!RoundTripOK (value "
